@@ -408,8 +408,9 @@ pub fn attempts_in_log(log: &[Obs], cup: bool) -> V {
                 in_check = false;
                 check.clear();
             }
-            Obs::ComputeNext { state, .. } | Obs::CheckAllowed { state, .. } => poll_in_force = state.poll.is_some(),
-            Obs::Ev(Ev::Proto(p)) => poll_in_force = p.poll.is_some(),
+            // the interval in force follows the authenticated answers (C07's rule), not what the
+            // machine announces: an interval the machine forgot is still in force
+            Obs::Resp(_, HttpAns::Resp(s)) if !is_forged(cup, s) => poll_in_force = ref_retry_after(&s.headers).is_some(),
             Obs::Ev(Ev::State(State::CheckingForUpdates(_))) => {
                 in_check = true;
                 check.clear();
@@ -575,6 +576,70 @@ fn run_ping(ctx: &RunCtx, _tier: Tier) -> RunOut {
     out
 }
 
+/// An interval dictated by the answer to an event report or a reboot-wait ping governs the retries
+/// of the following check (in the same process, or after a restart on the surviving storage).
+fn run_interval_sources(ctx: &RunCtx) -> RunOut {
+    use crate::hist::{self, Hist, Rep, Uc};
+    let cup = choose("cup", 2) == 1;
+    let mut setup = Setup::new(Mode::Start);
+    setup.cup = cup;
+    let mut h = Hist::new(setup, Store::default());
+    // where the interval comes from: 0 nowhere, 1 the update-check answer, 2 the second event report, 3 a ping in the reboot wait
+    let source = choose("interval_source", 4);
+    {
+        let mut k = h.knobs();
+        k.uc = Uc::Update;
+        k.reboot_needed = true;
+        k.reboot_allowed = false;
+        match source {
+            1 => k.uc_retry_after = Some(b"600".to_vec()),
+            2 => k.other_retry_after = vec![None, Some(b"600".to_vec()), None],
+            _ => {}
+        }
+    }
+    h.check();
+    let n_pings = 1 + choose("pings", 2);
+    for i in 0..n_pings {
+        {
+            let mut k = h.knobs();
+            *k = hist::Knobs::default();
+            k.reboot_needed = true;
+            // the first ping may dictate the interval; a later ping repeats it (an answer without the header would withdraw it)
+            if source == 3 || (source != 0 && i > 0) || (source != 0 && source != 3) {
+                k.other_retry_after = vec![Some(b"600".to_vec())];
+            }
+        }
+        h.ping();
+    }
+    let restart = choose("then", 2) == 1;
+    if restart {
+        h.restart();
+    } else {
+        h.knobs().reboot_allowed = true;
+        h.reboot_timer();
+    }
+    let failure = choose("next_check_fails_with", 3);
+    {
+        let mut k = h.knobs();
+        *k = hist::Knobs::default();
+        k.uc = [Uc::Transport, Uc::Status500, Uc::NoUpdate][failure];
+        let _ = Rep::Ok;
+    }
+    h.check();
+    let log = h.log();
+    let mut out = RunOut::new(format!("source{source}"), true, trace::digest(&log));
+    if ctx.want_trace {
+        out.trace = Some(json!({"interval_source": source, "pings": n_pings, "restart": restart, "failure": failure, "log": trace::trace_json(&log)}));
+    }
+    if let Some(p) = h.problems.first() {
+        return out.fail(format!("driver problem: {p}"), "");
+    }
+    match attempts_in_log(&log, cup) {
+        Ok(()) => out,
+        Err((k, m)) => out.fail(k, m),
+    }
+}
+
 fn parts(tier: Tier) -> Vec<PartDef> {
     vec![
         PartDef::new(
@@ -587,10 +652,17 @@ fn parts(tier: Tier) -> Vec<PartDef> {
             move |ctx| run_uc(ctx, tier),
         ),
         PartDef::new(
+            "interval-from-reports-and-pings",
+            Cfg::new("C06/interval-from-reports-and-pings"),
+            json!({"interval_source": ["none", "update-check answer", "event-report answer", "reboot-wait ping answer"], "pings": "1..2 (later pings repeat the header)", "then": ["reboot and go on", "restart on the surviving storage"],
+                   "next_check": ["transport failure", "HTTP 500", "answered"], "cup": 2, "oracle": "the retry clauses with the interval of the last authenticated answer", "exploration": "full product"}),
+            run_interval_sources,
+        ),
+        PartDef::new(
             "retries-in-histories",
             Cfg::new("C06/retries-in-histories"),
             json!({"driver": "the C08 history harness: histories of checks (15 classes incl. retries, failures with and without an answer, answers dictating an interval), pings, end of wait and restarts, with and without CUP", "history_length": format!("0..{}", tier.pick(3, 4)),
-                   "oracle": "the retry clauses on the whole log: <= 3 attempts per check, a further attempt exactly when called for and no interval is in force, one session per check, fresh request ids over the whole history, no report sent twice", "exploration": "full product"}),
+                   "oracle": "the retry clauses on the whole log: <= 3 attempts per check, a further attempt exactly when called for and no interval is in force (the interval of the last authenticated answer), one session per check, fresh request ids over the whole history, no report sent twice", "exploration": "full product"}),
             move |ctx| crate::props::c08::run_judged_by(ctx, tier.pick(3, 4), false, &|log, cup, bad_url| if bad_url { Ok(()) } else { attempts_in_log(log, cup) }),
         ),
         PartDef::new(
@@ -598,6 +670,24 @@ fn parts(tier: Tier) -> Vec<PartDef> {
             Cfg::new("C06/retries-under-control-requests").dev(tier.pick(0, 1)).free(&["clients", "options", "inject", "policy.check"]),
             json!({"driver": "the C11 back-off harness: the first attempt of every check fails in transit, the back-off timer is a blocking point, two control requests injected at every step", "oracle": "as retries-in-histories"}),
             move |ctx| crate::props::c11::run_backoff_judged_by(ctx, tier, &|log| attempts_in_log(log, false)),
+        ),
+        PartDef::new(
+            "retries-in-sibling-histories-c09",
+            crate::props::c09::cross_cfg("C06/retries-in-sibling-histories-c09"),
+            json!({"driver": "the C09 history harness", "oracle": "as retries-in-histories"}),
+            move |ctx| crate::cross::judged_by(crate::props::c09::run_for_cross(ctx), &|log, cup| attempts_in_log(log, cup)),
+        ),
+        PartDef::new(
+            "retries-in-sibling-histories-c18",
+            crate::props::c18::cross_cfg("C06/retries-in-sibling-histories-c18"),
+            json!({"driver": "the C18 history harness", "oracle": "as retries-in-histories"}),
+            move |ctx| crate::cross::judged_by(crate::props::c18::run_for_cross(ctx), &|log, cup| attempts_in_log(log, cup)),
+        ),
+        PartDef::new(
+            "retries-in-sibling-histories-c02",
+            crate::props::c02::cross_cfg("C06/retries-in-sibling-histories-c02"),
+            json!({"driver": "the C02 forgery histories (real CUP handler)", "oracle": "as retries-in-histories"}),
+            move |ctx| crate::cross::judged_by(crate::props::c02::run_for_cross(ctx), &|log, cup| attempts_in_log(log, cup)),
         ),
         PartDef::new(
             "ping-once",
